@@ -91,6 +91,24 @@ Theorem C14_other_users_unchanged : forall G rv ops ops' k,
 Proof. exact reach_frame. Qed.
 Print Assumptions C14_other_users_unchanged.
 
+(* no operation fails half way: on a reachable store delete and revoke either succeed or are refused before the
+   first change (the model keeps the store on an error, the code raises where it stands: these are the only errors) *)
+Theorem C14_delete_never_fails_half_way : forall G rv ops path,
+  match db_delete G path (run G rv ops []) with
+  | Ok _ => True | Err e => e = ValueError \/ e = IndexError | Unmodelled => False end.
+Proof. exact reach_delete_refusals. Qed.
+Print Assumptions C14_delete_never_fails_half_way.
+Theorem C14_revoke_never_fails_half_way : forall G rv ops path lvl,
+  match revoke_sub_tree G rv path lvl (run G rv ops []) with
+  | Ok _ => True
+  | Err e => e = ValueError \/
+             (e = KeyError /\ exists key, branch_key (match lvl with None => path | Some l => firstn (S l) path end) = Ok key
+                                          /\ has_key key (run G rv ops []) = false)
+  | Unmodelled => False
+  end.
+Proof. exact reach_revoke_refusals. Qed.
+Print Assumptions C14_revoke_never_fails_half_way.
+
 (* non-vacuity: two users, three grants; deleting diana's client_1 session keeps her other client and babs *)
 Definition demo_ops : list (op bool) :=
   [ OAddGrant (PS "diana") (PS "client_1") (PS "g1") false; OAddGrant (PS "diana") (PS "client_2") (PS "g2") false;
